@@ -393,3 +393,27 @@ Definition spec (c : cfg) : result :=
   | Some e => RErr e
   | None => ROk (map (spec_found c) all_dn)
   end.
+
+(** ** [add_init] / [add_attrs_init]: how the two initialisers are produced.
+
+    Both call [_make_init_script] — the only difference allowed is the [attrs_init] flag
+    (which only changes the name of the generated function) and the name under which the
+    result is attached.  The argument expressions are tied to the source text by
+    [Gen/C14_consts.v] (AST, every run), so "an equivalent [__attrs_init__]" does not
+    depend on which classes the correspondence happens to instantiate. *)
+From Coq Require Import String.
+Local Open Scope string_scope.
+
+Record init_call := IC {
+  ic_args : list string;      (* positional arguments given to [_make_init_script] *)
+  ic_attrs_init : bool;       (* the [attrs_init=] keyword, the only keyword *)
+  ic_attached : list string   (* names read from the compiled script / written to the class *)
+}.
+
+Definition init_script_args : list string :=
+  [ "self._cls"; "self._attrs"; "self._has_pre_init"; "self._pre_init_has_args";
+    "self._has_post_init"; "self._frozen"; "self._slots"; "self._cache_hash";
+    "self._base_attr_map"; "self._is_exc"; "self._on_setattr" ].
+
+Definition add_init_call : init_call := IC init_script_args false ["__init__"].
+Definition add_attrs_init_call : init_call := IC init_script_args true ["__attrs_init__"].
